@@ -45,7 +45,9 @@ Verdict(e) ==
       [] e.t = "dur" ->
             IF e.fits /\ e.back = e.units THEN "ok"
             ELSE IF ~e.fits /\ e.eq THEN "ok"
-            ELSE IF e.calendar /\ "LongDurationsCalendarApproximated" \in KnownDeviations THEN "dev:LongDurationsCalendarApproximated"
+            \* (only from 3276 days on, where the formatter has to switch to years and months: a calendar text for a
+            \* shorter duration is a different violation)
+            ELSE IF e.calendar /\ e.long /\ "LongDurationsCalendarApproximated" \in KnownDeviations THEN "dev:LongDurationsCalendarApproximated"
             ELSE "bad:duration does not survive the round trip"
       [] e.t = "inst" -> IF e.eq THEN "ok" ELSE "bad:instant does not survive the round trip"
       [] e.t = "period" -> IF e.diff >= -1 /\ e.diff <= 1 THEN "ok" ELSE "bad:relative end time off by more than a second"
